@@ -16,7 +16,11 @@
        A + B: `read_wellformed` — a well-formed text reads as exactly the data it denotes.
     C. printer → reader   `print_read`: for every data value of the float-free fragment,
          `readText (printV v)` is one tree that `Denotes` `v`.
-       Floats: `float_prints_as_float`, `float_reads_as_float`.
+       Floats: `float_display_integral`, `float_display_nonintegral` (integral finite floats are
+         printed with ALL digits of their integer value and `.0`, Rust's `{:.1}`; the others by
+         `f64Display`, Rust's `{}`), `float_prints_as_float`, `float_reads_as_float` (every integral
+         float); shortest printing (`{}`): `float_display_exact`, `float_display_shortest`,
+         `shortest_roundtrip`, `float_display_roundtrip`, `integral_float_reads_exactly`.
     D. `intern_same` (from C14) and `read_ident_twice`.
 
   Model facts worth knowing (all proved or exhibited below):
@@ -211,8 +215,39 @@ example : printV exCtx (.cons 1 (.sym 0) (.cons 2 (.int (-1)) (.cons 3 (.unquote
 
 /-! ## Floats: `1.0` does not read back as an integer -/
 
+/-- An integral finite float is printed as the exact integer value (sign, then all its decimal
+    digits: `f64ExactInt`) followed by `.0` — Rust's `{:.1}`. -/
+theorem float_display_integral (b : UInt64) (hi : f64IsIntegral b = true) :
+    f64DisplayLisp b = (f64ExactInt b).map (· ++ ".0") :=
+  f64DisplayLisp_integral hi
+
+/-- Every other float (non-integral, infinite, NaN) is printed by `f64Display` — Rust's `{}`. -/
+theorem float_display_nonintegral (b : UInt64) (hi : f64IsIntegral b = false) :
+    f64DisplayLisp b = f64Display b :=
+  f64DisplayLisp_nonintegral hi
+
+/-- … spelled out: with `(neg, m, e)` the decoding of `b` (value `±m·2^e`), the text is the sign, the
+    digits of `m·2^e` (of `m / 2^(-e)` when `e < 0`; the division is exact), and `.0`. -/
+theorem float_display_integral_digits (b : UInt64) (neg : Bool) (m : Nat) (e : Int)
+    (hd : f64Decode b = some (neg, m, e)) (hi : f64IsIntegral b = true) :
+    f64DisplayLisp b = some ((if neg then "-" else "") ++
+      natDigits (if e ≥ 0 then m * pow2 e.toNat else m / pow2 (-e).toNat) ++ ".0") :=
+  f64DisplayLisp_integral_decode hd hi
+
+/-- non-vacuity: 2^62 prints with all 19 digits of the integer (its shortest round-trip rendering,
+    which `{}` gives, is `4611686018427388000`); 0.5 and `inf` go through `f64Display` -/
+example : f64IsIntegral 0x43D0000000000000 = true ∧
+    f64DisplayLisp 0x43D0000000000000 = some "4611686018427387904.0" ∧
+    f64Display 0x43D0000000000000 = some "4611686018427388000" := by decide
+example : f64Decode 0x43D0000000000000 = some (false, 0x10000000000000, 10) := by decide
+example : f64IsIntegral 0x3FE0000000000000 = false ∧ f64DisplayLisp 0x3FE0000000000000 = some "0.5" := by
+  decide
+example : f64IsIntegral 0x7FF0000000000000 = false ∧ f64DisplayLisp 0x7FF0000000000000 = some "inf" := by
+  decide
+
 /-- The printed form of an integral float ends in `.0`, is one word, and the tokenizer classifies
-    that word as a float token carrying exactly that text — never as an integer. -/
+    that word as a float token carrying exactly that text — never as an integer.  (It holds for every
+    integral finite float, however many digits its integer value has, e.g. 2^53, 2^62.) -/
 theorem float_prints_as_float (b : UInt64) (s : String) (h : f64DisplayLisp b = some s)
     (hi : f64IsIntegral b = true) :
     (∃ d : String, s = d ++ ".0") ∧ wordTok s.toList = .float s ∧ ∀ n : Int, wordTok s.toList ≠ .int n := by
@@ -231,6 +266,75 @@ theorem float_reads_as_float (f : Nat) (b : UInt64) (s : String) (h : f64Display
   exact tokenize_one f _ _ a z hr ha hz hc
 
 example : f64IsIntegral 0x3FF0000000000000 = true ∧ f64DisplayLisp 0x3FF0000000000000 = some "1.0" := by
+  decide
+/-- non-vacuity beyond 15 digits: 2^53 is outside the exact printer of `{}` and prints as `9007199254740992.0` -/
+example : f64IsIntegral 0x4340000000000000 = true ∧ f64ExactDecimal 0x4340000000000000 = none ∧
+    f64DisplayLisp 0x4340000000000000 = some "9007199254740992.0" := by decide
+example : wordTok "9007199254740992.0".toList = .float "9007199254740992.0" :=
+  (float_prints_as_float 0x4340000000000000 _ (by decide) (by decide)).2.1
+example : wordTok "4611686018427387904.0".toList = .float "4611686018427387904.0" :=
+  (float_prints_as_float 0x43D0000000000000 _ (by decide) (by decide)).2.1
+
+/-! ### shortest printing
+
+  `f64Display` prints a finite float by its exact decimal expansion when that is short
+  (`f64ExactDecimal`, at most 15 significant digits) and otherwise by the shortest decimal that reads
+  back as the same float (`f64ShortestAbs`).  `readCand sh c` is the float (bits without sign) that
+  the decimal `c · 10^(-sh)` reads as under the correctly rounded `ratToF64Abs`; `renderCand sh c` is
+  its text in positional notation. -/
+
+/-- A finite float with a short exact decimal expansion is displayed as that expansion (the
+    printer extension changes nothing on the old domain). -/
+theorem float_display_exact (b : UInt64) (t : Bool × Nat × Int) (hd : f64Decode b = some t) (s : String)
+    (h : f64ExactDecimal b = some s) : f64Display b = some s :=
+  f64Display_exact hd h
+
+/-- Every other finite float is displayed by the shortest round-trip printer, with `-` in front of
+    negative floats. -/
+theorem float_display_shortest (b : UInt64) (t : Bool × Nat × Int) (hd : f64Decode b = some t)
+    (h : f64ExactDecimal b = none) :
+    f64Display b = (f64ShortestAbs b).map fun s => (if f64IsNeg b then "-" else "") ++ s :=
+  f64Display_shortest hd h
+
+/-- **Shortest printing round-trips** (the `back` test of `shortestFrom`, extracted): whatever
+    `shortestFrom` prints, started at precision `p` with `fuel` steps, is the text of a candidate `c`
+    at some precision `q` (`p ≤ q < p + fuel`, scale `sh = q - 1 - t`) which is the one `pickAt`
+    takes there, is positive, and reads back as `bits`; at every precision from `p` up to `q` neither
+    neighbour of the exact value read back (so `q` is the first, i.e. shortest, precision that works). -/
+theorem shortest_roundtrip (bits : UInt64) (num den : Nat) (t : Int) (fuel p : Nat) (s : String)
+    (h : shortestFrom bits num den t fuel p = some s) :
+    ∃ (q c : Nat), p ≤ q ∧ q < p + fuel ∧
+      pickAt bits num den ((q : Int) - 1 - t) = some c ∧
+      s = renderCand ((q : Int) - 1 - t) c ∧ 0 < c ∧ readCand ((q : Int) - 1 - t) c = bits ∧
+      ∀ q', p ≤ q' → q' < q → pickAt bits num den ((q' : Int) - 1 - t) = none :=
+  shortestFrom_roundtrip bits num den t fuel p s h
+
+/-- … for the printer itself: a finite float without a short exact expansion is displayed as its
+    sign followed by the text of a positive decimal candidate that reads back as the bits of the
+    float (sign removed). -/
+theorem float_display_roundtrip (b : UInt64) (t : Bool × Nat × Int) (hd : f64Decode b = some t)
+    (hx : f64ExactDecimal b = none) (s : String) (h : f64Display b = some s) :
+    ∃ (sh : Int) (c : Nat), s = (if f64IsNeg b then "-" else "") ++ renderCand sh c ∧ 0 < c ∧
+      readCand sh c = b &&& ~~~signBit :=
+  f64Display_roundtrip hd hx h
+
+/-- Reading is exact on integral floats: the integer value of a non-zero integral float is
+    converted back (correctly rounded) to its own bits, sign removed.  (So the all-digits text
+    printed for an integral float denotes a number that reads back as the same float; it is also why
+    the shortest printer never gives an integral float a fractional part.) -/
+theorem integral_float_reads_exactly (b : UInt64) (neg : Bool) (m : Nat) (e : Int)
+    (hd : f64Decode b = some (neg, m, e)) (hm : m ≠ 0) (hc : e ≥ 0 ∨ m % pow2 (-e).toNat = 0) :
+    ratToF64Abs (if e ≥ 0 then m * pow2 e.toNat else m / pow2 (-e).toNat) 1 = b &&& ~~~signBit :=
+  ratToF64Abs_integral hd hm hc
+
+/-- non-vacuity: 0.1 (no short exact expansion) prints as `0.1`, whose candidate `1 · 10^(-1)` reads
+    back as the bits of 0.1; -1/3 -/
+example : f64Decode 0x3FB999999999999A = some (false, 0x1999999999999A, -56) ∧
+    f64ExactDecimal 0x3FB999999999999A = none ∧ f64Display 0x3FB999999999999A = some "0.1" ∧
+    renderCand 1 1 = "0.1" ∧ readCand 1 1 = 0x3FB999999999999A := by decide
+example : f64Display 0xBFD5555555555555 = some "-0.3333333333333333" := by decide
+/-- 1.0 stays on the exact printer -/
+example : f64ExactDecimal 0x3FF0000000000000 = some "1" ∧ f64Display 0x3FF0000000000000 = some "1" := by
   decide
 
 /-! ## D. Reading the same identifier twice interns the same symbol -/
